@@ -29,6 +29,9 @@ theorem others : Gen.ctorNumbers.length = 16 ∧ numOf "Connect" "protocolVersio
 theorem has_eq : Gen.bits.has = has := rfl
 theorem toggle_eq : Gen.bits.toggle = toggle := rfl
 
+/-- the will QoS bits of the CONNECT flags (mask and shift) -/
+theorem willQoS_eq (p : Connect) : Gen.Connect.willQoS p.flags = p.willQoS := rfl
+
 theorem complete : Gen.untranslatedCtor = [] := by decide
 
 end Mq.Tie.Ctor
